@@ -32,8 +32,10 @@ VARIANTS = {
     "nostart": ("harness_nostart", False, []),
     # no-libc executable started by tiny-std's own _start (feature `executable`): real Inherit
     "probe": ("probe/spawnp", True, []),
+    # no-libc, no-alloc: the free function tiny_std::process::spawn::<N, _> (Environment::Inherit | None only)
+    "noalloc": ("probe/spawnn", True, []),
 }
-MODEL_OF = {"start": "start", "nostart": "nostart", "probe": "start"}   # which TLC run generates the plans
+MODEL_OF = {"start": "start", "nostart": "nostart", "probe": "start", "noalloc": "start"}   # which TLC run generates the plans
 
 
 # ------------------------------------------------------------------------------------------------
@@ -173,6 +175,11 @@ def concretise(plan, rundir, variant, idx):
          "uid": os.getuid() if cfg["uid"] == "own" else -1, "puid": os.getuid(),
          "gid": os.getgid() if cfg["gid"] == "own" else -1, "pgid": os.getgid(),
          "pg": 0 if cfg["pg"] == "own" else -1, "io": io, "pre": list(cfg["pre"])}
+    dplan["envnone"] = False
+    if variant == "noalloc" and idx % 2 == 1:
+        # Environment::None chosen explicitly: the configured environment is the empty one
+        dplan["envnone"] = True
+        c["envmode"], c["envs"] = "provided", []
     f = plan["fault"]
     planned = []
     if cfg["cwd"] == "missing":
@@ -229,11 +236,11 @@ def execute(job):
     cmd = [os.path.join(job["tools"], "spawntrace"), "-o", log, "-t", str(job.get("timeout_ms", 4000))]
     if inj:
         cmd += ["-i", inj]
-    probe = job["variant"] == "probe"
+    probe = job["variant"] in ("probe", "noalloc")
     if probe:
         for o in dplan["open"]:
             cmd += ["-f", "%d:%s:%s" % (o["fd"], "w" if o["write"] else "r", o["path"])]
-        cmd += ["--", os.path.join(job["bindir"], "spawnp")] + probe_args(dplan)
+        cmd += ["--", os.path.join(job["bindir"], "spawnp" if job["variant"] == "probe" else "spawnn")] + probe_args(dplan)
     else:
         cmd += ["--", os.path.join(job["bindir"], "spawnd"), "plan.json", evf]
     with open(os.path.join(rundir, "drv_in")) as fi, open(os.path.join(rundir, "drv_out"), "a") as fo, \
@@ -263,6 +270,8 @@ def execute(job):
 
 def probe_args(dplan):
     a = ["bin=" + dplan["bin"]] + ["arg=" + x for x in dplan["args"]] + ["env=" + x for x in (dplan["env"] or [])]
+    if dplan.get("envnone"):
+        a.append("envnone=1")
     if dplan["cwd"]:
         a.append("cwd=" + dplan["cwd"])
     for k, n in (("uid", "uid"), ("gid", "gid"), ("pgroup", "pg")):
@@ -498,17 +507,19 @@ def run(tier):
             raise core.ToolError("Spawn_MC generated no plan")
         if any(p["viol"] for p in plans):
             raise core.ToolError("model inconsistent: plan with violated clauses although AbsHolds passed")
+        if variant == "noalloc":
+            plans = [p for p in plans if p["cfg"]["nenv"] == 0]     # no provided environment without alloc
         chosen, n_nofault, n_groups = select_plans(plans, tier, random.Random(seed))
         info = {"generated_by_tlc": len(plans), "executed": len(chosen), "configurations_without_fault": n_nofault,
                 "fault_x_outcome_classes": n_groups, "model_states": res.distinct}
-        bindir = core.cargo_build(template=template, bins=None if variant == "probe" else ["spawnd"])
+        bindir = core.cargo_build(template=template, bins=None if template.startswith("probe/") else ["spawnd"])
         base = os.path.join(chk.work, "runs-" + variant)
         if os.path.isdir(base):
             shutil.rmtree(base)
         jobs = [{"idx": i + 1, "plan": p, "variant": variant, "rundir": os.path.join(base, "r%05d" % (i + 1)),
                  "bindir": bindir, "tools": tools} for i, p in enumerate(chosen)]
         t1 = time.time()
-        with concurrent.futures.ThreadPoolExecutor(max_workers=4) as ex2:
+        with concurrent.futures.ThreadPoolExecutor(max_workers=3) as ex2:
             runs = list(ex2.map(execute, jobs))
         done = [(r, j) for r, j in zip(runs, jobs) if r is not None]
         runs, jobs = [r for r, _ in done], [j for _, j in done]
@@ -517,7 +528,7 @@ def run(tier):
         core.log("%s: %d real runs %.1fs, SpawnTrace judge %.1fs" % (variant, len(runs), t2 - t1, time.time() - t2))
         return info, jobs, runs, verdicts, jres
 
-    with concurrent.futures.ThreadPoolExecutor(max_workers=3) as ex:
+    with concurrent.futures.ThreadPoolExecutor(max_workers=4) as ex:
         vf = {v: ex.submit(variant_work, v, chk.seed) for v in VARIANTS}
         vres = {v: vf[v].result() for v in VARIANTS}
     for variant in VARIANTS:
@@ -675,7 +686,7 @@ def replay(path):
     chk = core.Check("C13", "quick", "model_checking")
     tools = build_tools()
     variant = rp["variant"]
-    bindir = core.cargo_build(template=VARIANTS[variant][0], bins=None if variant == "probe" else ["spawnd"])
+    bindir = core.cargo_build(template=VARIANTS[variant][0], bins=None if VARIANTS[variant][0].startswith("probe/") else ["spawnd"])
     job = {"idx": 1, "plan": rp["plan"], "variant": variant, "rundir": os.path.join(chk.work, "replay", "r1"),
            "bindir": bindir, "tools": tools}
     r = execute(job)
